@@ -405,7 +405,23 @@ pub fn render(t: &mut Tape, plan: &FlatPlan, core_only: bool) -> E2Case {
     for l in &plan.leaves {
         let mut ins: Vec<Instr> = vec![];
         if !l.path.is_empty() {
-            ins.push(Instr::Child { ded: if t.chance(1, 8) { Some("D".into()) } else { None }, path: dsl_path(&l.path) });
+            // a default #[child(..)] naming another node next to the one dedicated to D: the dedicated one must win
+            // whatever the order (the default one would serve counterparts that have no dedicated instruction)
+            let others: Vec<&(String, String, bool)> = nodes.iter().filter(|n| n.0 != dsl_path(&l.path)).collect();
+            if !others.is_empty() && t.chance(1, 6) {
+                labels.push("child:default-and-dedicated".into());
+                let decoy = Instr::Child { ded: None, path: t.pick(&others).0.clone() };
+                let real = Instr::Child { ded: Some("D".into()), path: dsl_path(&l.path) };
+                if t.chance(2, 3) {
+                    ins.push(decoy);
+                    ins.push(real);
+                } else {
+                    ins.push(real);
+                    ins.push(decoy);
+                }
+            } else {
+                ins.push(Instr::Child { ded: if t.chance(1, 8) { Some("D".into()) } else { None }, path: dsl_path(&l.path) });
+            }
         }
         let rename = l.member != l.s_name;
         let member = if rename { Some(l.member.clone()) } else { None };
